@@ -143,12 +143,17 @@ def run(spec, out):
         chosen = rng.sample(edits, 4)
         if case.family == "dot":
             chosen.append("dot-third-occurrence")
+        if case.op == "roll":
+            chosen.append("roll-shift-length")
+        if case.kwargs and rng.random() < 0.5:
+            chosen.append("kw-float-after-valid-call")
         for edit in chosen:
             inputs = [copy_expr(e) for e in case.inputs]
             outputs = None if case.outputs is None else [copy_expr(e) for e in case.outputs]
             tensors = [np.array(t, copy=True) for t in case.tensors]
             kw = dict(case.kwargs)
             desc = None
+            case_opts_override = None
             proof = None  # why the harness knows it is ill-formed
             allow_vt = False
             if edit == "dim":
@@ -282,6 +287,28 @@ def run(spec, out):
                     tensors.append(np.ones((case.sizes[nm], 2)))
                     outputs[0].append(Ax("zq"))
                 proof = "rule:contracted-axis-in-exactly-two-inputs"
+            elif edit == "roll-shift-length":
+                # one shift per rolled dimension (or a single one for all): a sequence of another length is rejected
+                from ..gen.expr import elementary_dims
+                if len(elementary_dims(case.xin[0], case.sizes)) != 1 or G.risk(case):
+                    continue
+                case_opts_override = {"shift": rng.choice([(1, 2), (1, 2, 3), (), [2, 1]])}
+                proof = "rule:shift-length"
+                allow_vt = True
+            elif edit == "kw-float-after-valid-call":
+                # the valid call first (compiled and cached), then the same call with one size given as a float of equal value:
+                # sizes must be integral whatever was called before
+                try:
+                    fn(base_desc, *[np.array(t, copy=True) for t in case.tensors], **case.kwargs, **case.opts)
+                except Exception:  # noqa
+                    continue
+                k_ = rng.choice(sorted(kw))
+                v = kw[k_]
+                kw[k_] = float(v) if isinstance(v, int) else type(v)(float(x) for x in v)
+                if isinstance(v, (tuple, list)) and len(v) == 0:
+                    continue
+                proof = "keyword-type"
+                allow_vt = True
             elif edit == "kw-type":
                 if not kw:
                     continue
@@ -320,7 +347,7 @@ def run(spec, out):
             factory_calls = [0]
             info = {"op": case.op, "orig": base_desc, "desc": desc, "shapes": [list(t.shape) for t in tensors], "kwargs": {a: repr(b) for a, b in kw.items()}, "edit": edit, "proof": proof}
             try:
-                r = ("ok", fn(desc, *tensors, **kw, **case.opts))
+                r = ("ok", fn(desc, *tensors, **kw, **{**case.opts, **(case_opts_override or {})}))
             except BaseException as e:  # noqa
                 r = ("exc", e)
             ran = hooks.counters["fn_invocations"] > 0
